@@ -904,8 +904,13 @@ class ExcelCompiler:
                 else:
                     self.log.info(
                         f"Cell {cell.address} evaluated to '{value}' ({type(value).__name__})")
-                cell.value = (value[0][0] if list_like(value[0]) else value[0]
-                              ) if list_like(value) else value
+                if list_like(value):
+                    # the cell keeps the top left value of an array, like any
+                    # other result of a formula an empty one reads as 0
+                    value = value[0][0] if list_like(value[0]) else value[0]
+                    if value is None:
+                        value = 0
+                cell.value = value
 
         return cell.value
 
